@@ -91,6 +91,13 @@ func (h *killedHandler) cleanupIfNotRestarting() {
 	h.ctx.EventStream().UnsubscribeAll(h.ctx)
 	h.ctx.system.removeActorContext(h.ctx)
 
+	// 通知事件流（必须先于通知父节点：父节点收到通知后可能立即终止并发布自己的终止事件，
+	// 否则订阅者可能先于子节点看到父节点的终止事件）
+	h.ctx.EventStream().Publish(h.ctx, ves.ActorKilledEvent{
+		ActorRef: h.ctx.ref,
+		Type:     reflect.TypeOf(h.ctx.actor),
+	})
+
 	// 通知所有监听者
 	for _, watcher := range h.ctx.watchers {
 		h.ctx.tell(true, watcher, h.selfKilledMessage)
@@ -100,12 +107,6 @@ func (h *killedHandler) cleanupIfNotRestarting() {
 	if h.ctx.parent != nil {
 		h.ctx.tell(true, h.ctx.parent, h.selfKilledMessage)
 	}
-
-	// 通知事件流
-	h.ctx.EventStream().Publish(h.ctx, ves.ActorKilledEvent{
-		ActorRef: h.ctx.ref,
-		Type:     reflect.TypeOf(h.ctx.actor),
-	})
 }
 
 // cleanupScheduler 清理调度器
